@@ -200,8 +200,39 @@ def check_driver(c):
     return discs
 
 
+FIXED_STRINGS = [
+    # (string, auto_slot, valid)
+    ("10.0.0.1", True, True), ("10.0.0.1/3", True, True), ("10.0.0.1:4444", True, True), ("10.0.0.1/bp/2/enet/10.1.1.1/bp/0", False, True),
+    ("plc1,bp,0", False, True), ("plc1\\backplane\\1", False, True), ("10.0.0.1:1/1/0", False, True), ("10.0.0.1:65534", False, True),
+    ("10.0.0.1:0", False, False), ("10.0.0.1:65535", False, False), ("10.0.0.1:65536", False, False), ("10.0.0.1:70000/bp/1", False, False),
+    ("10.0.0.1:-1", False, False), ("10.0.0.1:-123", True, False), ("10.0.0.1:abc", False, False), ("10.0.0.1:", False, False), ("10.0.0.1:4a/bp/0", True, False),
+    ("10.0.0.1/bp", False, False), ("10.0.0.1/bp/1/enet", False, False), ("10.0.0.1/bp/1/enet/10.1.1.1/bp", True, False),
+    ("10.0.0.1/bpx/1", False, False), ("10.0.0.1/ethernet/10.1.1.1", False, False), ("10.0.0.1/bp/256", False, False), ("10.0.0.1/bp/999", True, False),
+    ("10.0.0.1/enet/1.2.3", False, False), ("10.0.0.1/enet/1.2.3.256", False, False), ("10.0.0.1/enet/a.b.c.d", False, False), ("10.0.0.1/enet/1.2.3.4.5", False, False),
+]
+
+
+def check_fixed_in_subprocess(flags):
+    """the same strings under another interpreter configuration (e.g. python -O strips assert statements)"""
+    import json
+    import subprocess
+    import sys
+    from ..runner import REPO, VERIF
+    code = ("import sys, json; sys.path.insert(0, %r); sys.path.insert(0, %r); import logging; logging.disable(50)\n"
+            "from vf.props import c15\n"
+            "out = []\n"
+            "for s, a, v in c15.FIXED_STRINGS:\n"
+            "    out += [[s, a, d.bucket, d.detail] for d in c15.check_string(s, a, v)]\n"
+            "print(json.dumps(out))\n") % (VERIF, REPO)
+    r = subprocess.run([sys.executable] + flags + ["-c", code], capture_output=True, text=True, timeout=300)
+    if r.returncode != 0:
+        from ..runner import HarnessError
+        raise HarnessError(f"subprocess {flags} failed: {r.stderr[-500:]}")
+    return json.loads(r.stdout.strip().splitlines()[-1])
+
+
 def plan(tier):
-    jobs = []
+    jobs = [{"part": "interp", "flags": ["-O"]}, {"part": "interp", "flags": ["-OO"]}, {"part": "interp", "flags": []}]
     n = 8 if tier == "quick" else 32
     for _ in range(n):
         jobs.append({"part": "valid", "examples": 900 if tier == "quick" else 8000})
@@ -217,6 +248,13 @@ def check_any(c):
 
 def run_job(ctx, job):
     part = job["part"]
+    if part == "interp":
+        res = check_fixed_in_subprocess(job["flags"])
+        for s_, a, v in FIXED_STRINGS:
+            ctx.case(("interp", tuple(job["flags"]), s_, a), True, ["valid" if v else "corrupt", "interpreter-mode"])
+        for s_, a, bucket, detail in res:
+            ctx.violation(Disc("interp%s.%s" % ("".join(job["flags"]), bucket), detail + f" [python {' '.join(job['flags'])}]"), "interp", {"flags": job["flags"], "s": s_, "auto": a})
+        return
     if part == "valid":
         hyp_search(ctx, "string", valid_strings(), lambda c: (check_any(c), bool(c.get("hops")) or ":" in c["s"] or c.get("shortcut"),
                                                               ["valid"] + (["shortcut"] if c.get("shortcut") else [])), job["examples"])
@@ -227,4 +265,6 @@ def run_job(ctx, job):
 
 
 def replay(ctx, kind, case):
+    if kind == "interp":
+        return [Disc(b, d) for s_, a, b, d in check_fixed_in_subprocess(case["flags"]) if s_ == case["s"]]
     return check_any(case) if kind == "string" else check_driver(case)
